@@ -1125,6 +1125,264 @@ theorem c18_generate_no_error (cands : List Cand) (wn : List K) (valid : Nat →
 
 end gen
 
+
+/-! ## 8. deepening round: batch loop, relocation and validity inside the generator -/
+
+namespace C18
+
+theorem zipIdx_append' {α : Type} (l1 l2 : List α) (k : Nat) :
+    (l1 ++ l2).zipIdx k = l1.zipIdx k ++ l2.zipIdx (k + l1.length) := by
+  induction l1 generalizing k with
+  | nil => simp
+  | cons x xs ih => simp [List.zipIdx_cons, ih, Nat.add_assoc, Nat.add_comm 1]
+
+theorem batches_prefix {α : Type} (bs : Nat) (l : List α) : ∀ m : Nat,
+    (List.range m).flatMap (fun bi => ((l.drop (bi * bs)).take bs).zipIdx (bi * bs)) = (l.take (m * bs)).zipIdx
+  | 0 => by simp
+  | m + 1 => by
+    rw [List.range_succ, List.flatMap_append, batches_prefix bs l m]
+    simp only [List.flatMap_cons, List.flatMap_nil, List.append_nil]
+    have e : l.take ((m + 1) * bs) = l.take (m * bs) ++ (l.drop (m * bs)).take bs := by
+      rw [Nat.succ_mul, List.take_add]
+    rw [e, zipIdx_append', Nat.zero_add]
+    by_cases h : m * bs ≤ l.length
+    · rw [List.length_take, Nat.min_eq_left h]
+    · have : l.drop (m * bs) = [] := List.drop_eq_nil_of_le (by omega)
+      simp [this]
+
+theorem batchedIdx_eq {α : Type} (bs : Nat) (hbs : 0 < bs) (l : List α) :
+    batchedIdx bs l = some l.zipIdx := by
+  unfold batchedIdx
+  rw [if_neg (by omega), batches_prefix]
+  congr 1
+  have h1 := Nat.div_add_mod (l.length + bs - 1) bs
+  have h2 := Nat.mod_lt (l.length + bs - 1) hbs
+  have : l.length ≤ (l.length + bs - 1) / bs * bs := by
+    generalize (l.length + bs - 1) / bs = q at *
+    generalize (l.length + bs - 1) % bs = r at *
+    rw [Nat.mul_comm q bs]
+    omega
+  rw [List.take_of_length_le this]
+
+end C18
+
+section table
+set_option linter.unusedSectionVars false
+variable {F : Type} [Add F] [Sub F] [Mul F] [Div F] [Neg F] [OfNat F 0] [OfNat F 2]
+  [LE F] [DecidableLE F] [Transc F]
+
+/-- **the source batch loop changes nothing**: for every positive batch size the batched selection
+(`src_slice`, `bi*src_batch_size + k`) is the direct one — a wrong index offset or slice breaks this proof —
+and a batch size 0 is an error. -/
+theorem c18_batched_refines (bs g j : Nat) (G : Grp F) (evs : List (Ev F)) (lt fac : F) :
+    (0 < bs → groupCandsB bs g j G evs lt fac = groupCands g j G evs lt fac) ∧
+    groupCandsB 0 g j G evs lt fac = none := by
+  constructor
+  · intro hbs
+    unfold groupCandsB groupCands
+    rw [C18.batchedIdx_eq bs hbs]
+    cases minMax (evs.map (·.s)) with
+    | none => rfl
+    | some p => rfl
+  · unfold groupCandsB batchedIdx
+    cases minMax (evs.map (·.s)) with
+    | none => rfl
+    | some p => rfl
+
+/-- the whole table built with batches is the table of the direct model (all theorems about `tableRaw` are
+theorems about the batched model the driver runs) -/
+theorem c18_table_batched_refines (bss : Nat → Nat) (hb : ∀ g, 0 < bss g)
+    (grps : List (Grp F)) (nDs : Nat) (evs : Nat → Nat → List (Ev F)) (lt : Nat → F) (fac : F) :
+    tableRawB bss grps nDs evs lt fac = tableRaw grps nDs evs lt fac := by
+  unfold tableRawB tableRaw
+  congr 2
+  funext gj
+  exact (c18_batched_refines (bss gj.1.2) gj.1.2 gj.2 gj.1.1 _ _ fac).1 (hb _)
+
+end table
+
+namespace C18
+section events
+set_option linter.unusedSectionVars false
+variable {F : Type} [Add F] [Sub F] [Mul F] [Div F] [Neg F] [LT F] [DecidableLT F]
+  [OfNat F 1] [OfNat F 2] [OfScientific F] [Transc F] [Atan2 F]
+
+theorem relocRows_spec (D : EvData F) : ∀ (rows : List (Nat × Cand)) (ps : List ((Nat × Cand) × F × F × F)),
+    relocRows D rows = some ps → ps.map (·.1) = rows ∧ ∀ p ∈ ps, postProc D p.1.2 = some p.2
+  | [], ps, h => by simp only [relocRows, Option.some.injEq] at h; subst h; simp
+  | rc :: rest, ps, h => by
+    simp only [relocRows] at h
+    split at h
+    · rename_i p ps' hp hr
+      simp only [Option.some.injEq] at h
+      subst h
+      obtain ⟨h1, h2⟩ := relocRows_spec D rest ps' hr
+      refine ⟨by simp [h1], ?_⟩
+      intro q hq
+      rcases List.mem_cons.mp hq with rfl | hq
+      · exact hp
+      · exact h2 q hq
+    · exact absurd h (by simp)
+
+theorem relocDss_spec (D : EvData F) : ∀ (out : List (Nat × List (Nat × Cand)))
+    (o : List (Nat × List ((Nat × Cand) × F × F × F))), relocDss D out = some o →
+    List.Forall₂ (fun e e' => e'.1 = e.1 ∧ e'.2.map (·.1) = e.2 ∧ ∀ p ∈ e'.2, postProc D p.1.2 = some p.2) out o
+  | [], o, h => by simp only [relocDss, Option.some.injEq] at h; subst h; exact List.Forall₂.nil
+  | e :: rest, o, h => by
+    simp only [relocDss] at h
+    split at h
+    · rename_i p ps hp hr
+      simp only [Option.some.injEq] at h
+      subst h
+      obtain ⟨h1, h2⟩ := relocRows_spec D e.2 p hp
+      exact List.Forall₂.cons ⟨rfl, h1, h2⟩ (relocDss_spec D rest ps hr)
+    · exact absurd h (by simp)
+
+theorem relocDss_lengths (D : EvData F) (out : List (Nat × List (Nat × Cand)))
+    (o : List (Nat × List ((Nat × Cand) × F × F × F)))
+    (hf : List.Forall₂ (fun e e' => e'.1 = e.1 ∧ e'.2.map (·.1) = e.2 ∧ ∀ p ∈ e'.2, postProc D p.1.2 = some p.2) out o) :
+    (o.map (fun e => e.2.length)).sum = (out.map (fun e => e.2.length)).sum := by
+  induction hf with
+  | nil => rfl
+  | cons hab _ ih =>
+    simp only [List.map_cons, List.sum_cons, ih]
+    rw [← hab.2.1, List.length_map]
+
+end events
+end C18
+
+section eventsGen
+set_option linter.unusedSectionVars false
+variable {F : Type} [Add F] [Sub F] [Mul F] [Div F] [Neg F] [LE F] [DecidableLE F] [LT F] [DecidableLT F]
+  [OfNat F 0] [OfNat F 1] [OfNat F 2] [OfScientific F] [Transc F] [Atan2 F]
+
+/-- **the complete generator** (draw → relocation → validity of the relocated event → redraw → output buffers →
+events handed out): the number reported is the number requested and the number of events handed out; every event
+handed out is a candidate of the dataset it is handed out for, carries exactly the coordinates
+`signal_event_post_sampling_processing` computes for *its own* source (`postProc`), and these coordinates — not
+those of the stored MC event — satisfy the validity ranges (`validRel`). -/
+theorem c18_generate_relocated (right : Bool) (cands : List Cand) (cdf : List F) (D : EvData F)
+    (rs : List (Nat × Fld × F × F)) (n : Nat) (us : List F)
+    (k : Nat) (o : List (Nat × List ((Nat × Cand) × F × F × F))) (rest : List F)
+    (h : generateEv right cands cdf D rs n us = some (k, o, rest)) :
+    k = n ∧ (o.map (fun e => e.2.length)).sum = n ∧
+    ∀ e ∈ o, ∀ p ∈ e.2, cands[p.1.1]? = some p.1.2 ∧ p.1.2.ds = e.1 ∧
+      validRel D cands rs p.1.1 = true ∧ postProc D p.1.2 = some p.2 := by
+  unfold generateEv at h
+  split at h
+  · exact absurd h (by simp)
+  · rename_i k' out rest' hg
+    split at h
+    · exact absurd h (by simp)
+    · rename_i o' hr
+      simp only [Option.some.injEq, Prod.mk.injEq] at h
+      obtain ⟨rfl, rfl, rfl⟩ := h
+      rw [c18_generate_buffer_refines] at hg
+      obtain ⟨c1, c2, _⟩ := c18_count_conserved right cands cdf _ n us _ _ _ hg
+      have hv := c18_all_valid right cands cdf _ n us _ _ _ hg
+      have hf := C18.relocDss_spec D out o' hr
+      refine ⟨c1, ?_, ?_⟩
+      · rw [← c2]; exact C18.relocDss_lengths D out o' hf
+      · intro e' he' p hp
+        obtain ⟨i, hi, rfl⟩ := List.getElem_of_mem he'
+        have hlen := hf.length_eq
+        have hi' : i < out.length := by rw [hlen]; exact hi
+        obtain ⟨e1, e2, e3⟩ := (List.forall₂_iff_get.mp hf).2 i hi' hi
+        simp only [List.get_eq_getElem] at e1 e2 e3
+        have hmem : p.1 ∈ out[i].2 := by rw [← e2]; exact List.mem_map_of_mem hp
+        obtain ⟨a1, a2, a3⟩ := hv out[i] (List.getElem_mem hi') p.1 hmem
+        exact ⟨a1, by rw [e1]; exact a2, a3, e3 p hp⟩
+
+end eventsGen
+
+/-- what `postProc` yields over ℝ: the event sits at its true-to-reco separation from its own source, `sin_dec`
+is the sine of the new declination, which is a declination -/
+theorem c18_generated_event_offset (D : EvData ℝ) (c : Cand) (ra dec sd : ℝ) (s : ℝ × ℝ) (d : Dir ℝ)
+    (hs : D.src c.shg c.src = some s) (hd : D.dir c.ds c.ev = some d) (hpole : ¬ Real.cos s.2 < 1e-12)
+    (h : postProc D c = some (ra, dec, sd)) :
+    sepVincenty s.1 s.2 ra dec = sepVincenty d.tRa d.tDec d.rRa d.rDec ∧ sd = Real.sin dec ∧
+      -(Real.pi / 2) ≤ dec ∧ dec ≤ Real.pi / 2 := by
+  unfold postProc at h
+  rw [hs, hd] at h
+  simp only [Option.some.injEq, Prod.mk.injEq, TranscReal.sin_def] at h
+  obtain ⟨rfl, rfl, rfl⟩ := h
+  refine ⟨c18_rotation_preserves_sep_angle _ _ _ _ _ _ hpole, rfl, ?_⟩
+  unfold relocate
+  exact c18_relocated_dec_range _ _ _ _
+
+namespace C18
+section ev
+set_option linter.unusedSectionVars false
+variable {K : Type} [Field K] [LinearOrder K] [IsStrictOrderedRing K] [Transc K] [Atan2 K]
+
+theorem rangeVals_spec (D : EvData K) (c : Cand) : ∀ (l : List (Nat × Fld × K × K)) (vs : List (K × K × K)),
+    rangeVals D c l = some vs →
+    List.Forall₂ (fun e t => fieldVal D c e.2.1 = some t.1 ∧ t.2.1 = e.2.2.1 ∧ t.2.2 = e.2.2.2) l vs
+  | [], vs, h => by simp only [rangeVals, Option.some.injEq] at h; subst h; exact List.Forall₂.nil
+  | e :: rest, vs, h => by
+    simp only [rangeVals] at h
+    split at h
+    · rename_i v vs' hv hr
+      simp only [Option.some.injEq] at h
+      subst h
+      exact List.Forall₂.cons ⟨hv, rfl, rfl⟩ (rangeVals_spec D c rest vs' hr)
+    · exact absurd h (by simp)
+
+theorem rangeVals_isSome (D : EvData K) (c : Cand) : ∀ (l : List (Nat × Fld × K × K)),
+    (∀ e ∈ l, ∃ v, fieldVal D c e.2.1 = some v) → ∃ vs, rangeVals D c l = some vs
+  | [], _ => ⟨[], rfl⟩
+  | e :: rest, h => by
+    obtain ⟨v, hv⟩ := h e (by simp)
+    obtain ⟨vs, hvs⟩ := rangeVals_isSome D c rest (fun e' he' => h e' (by simp [he']))
+    exact ⟨(v, e.2.2.1, e.2.2.2) :: vs, by simp only [rangeVals, hv, hvs]⟩
+
+end ev
+end C18
+
+section ev
+set_option linter.unusedSectionVars false
+variable {K : Type} [Field K] [LinearOrder K] [IsStrictOrderedRing K] [Transc K] [Atan2 K]
+
+/-- **validity of a table row = every configured range of the row's dataset holds, closed on both sides, on the
+field values of the *relocated* event** (ra, dec, sin_dec after `postProc`; other fields as stored) — under the
+guard that the row and the configured fields exist (otherwise the code raises KeyError). -/
+theorem c18_validRel_iff (D : EvData K) (cands : List Cand) (rs : List (Nat × Fld × K × K)) (r : Nat) (c : Cand)
+    (hc : cands[r]? = some c) (hex : ∀ e ∈ rs, e.1 = c.ds → ∃ v, fieldVal D c e.2.1 = some v) :
+    validRel D cands rs r = true ↔
+      ∀ e ∈ rs, e.1 = c.ds → ∀ v, fieldVal D c e.2.1 = some v → e.2.2.1 ≤ v ∧ v ≤ e.2.2.2 := by
+  obtain ⟨vs, hvs⟩ := C18.rangeVals_isSome D c (rs.filter (fun e => e.1 == c.ds)) (by
+    intro e he
+    simp only [List.mem_filter, beq_iff_eq] at he
+    exact hex e he.1 he.2)
+  have hf := C18.rangeVals_spec D c _ vs hvs
+  unfold validRel
+  simp only [hc, hvs, Bool.not_eq_true', c18_valid_iff]
+  constructor
+  · intro h e he hds v hv
+    have hmem : e ∈ rs.filter (fun e => e.1 == c.ds) := by
+      simp only [List.mem_filter, beq_iff_eq]; exact ⟨he, hds⟩
+    obtain ⟨i, hi, rfl⟩ := List.getElem_of_mem hmem
+    have hi' : i < vs.length := by rw [← hf.length_eq]; exact hi
+    obtain ⟨e1, e2, e3⟩ := (List.forall₂_iff_get.mp hf).2 i hi hi'
+    simp only [List.get_eq_getElem] at e1 e2 e3
+    have := h vs[i] (List.getElem_mem hi')
+    rw [hv] at e1
+    simp only [Option.some.injEq] at e1
+    rw [e2, e3, ← e1] at this
+    exact this
+  · intro h t ht
+    obtain ⟨i, hi, rfl⟩ := List.getElem_of_mem ht
+    have hi' : i < (rs.filter (fun e => e.1 == c.ds)).length := by rw [hf.length_eq]; exact hi
+    obtain ⟨e1, e2, e3⟩ := (List.forall₂_iff_get.mp hf).2 i hi' hi
+    simp only [List.get_eq_getElem] at e1 e2 e3
+    have hmem := List.getElem_mem hi'
+    simp only [List.mem_filter, beq_iff_eq] at hmem
+    have := h _ hmem.1 hmem.2 _ e1
+    rw [e2, e3]
+    exact this
+
+end ev
+
 /-! ## non-vacuity -/
 
 -- the guards of the distribution theorems are met by the design's witness
